@@ -13,6 +13,7 @@ import (
 	"go/types"
 	"math"
 	"strings"
+	"unsafe"
 
 	"golang.org/x/tools/go/ssa"
 	"symgo/smt"
@@ -344,6 +345,10 @@ func (i *interpreter) unsafeString(fr *frame, args []value) value {
 	case *value:
 		if p == nil && n == 0 {
 			return ""
+		}
+		if p != nil {
+			// &b[i] of an interpreter slice points into its []value backing array
+			return bytesToStr(unsafe.Slice(p, n))
 		}
 	}
 	panic(unsupported(fmt.Sprintf("unsafe.String(%T)", args[0])))
@@ -695,3 +700,69 @@ func (i *interpreter) noteMapWrite(fr *frame, mp *omap) {
 }
 
 var _ = smt.Bool
+
+// ---- fmt: formatting is never the subject of a property ----
+//
+// The fmt entry points are interpreted from their SSA like any other code, but
+// symbolic scalars and strings among their direct arguments are first replaced
+// by concrete placeholders of the same type and length (message text is
+// environment: rendering %q/%d of a symbolic value would fork per byte/digit).
+// Harness assertions never inspect message text.
+var fmtEntry = map[string]bool{"Sprintf": true, "Errorf": true, "Sprint": true, "Sprintln": true,
+	"Fprintf": true, "Fprint": true, "Fprintln": true, "Appendf": true, "Append": true, "Appendln": true}
+
+func fmtPlaceholder(v value) (value, bool) {
+	switch x := v.(type) {
+	case sym:
+		return zero(types.Typ[x.k]), true
+	case symstr:
+		b := make([]byte, len(x))
+		for k, e := range x {
+			if c, ok := e.(byte); ok {
+				b[k] = c
+			} else {
+				b[k] = '?'
+			}
+		}
+		return string(b), true
+	case iface:
+		if nv, ch := fmtPlaceholder(x.v); ch {
+			return iface{x.t, nv}, true
+		}
+	}
+	return v, false
+}
+
+func sanitizeFmtArgs(args []value) []value {
+	var out []value
+	set := func(k int, v value) {
+		if out == nil {
+			out = append([]value(nil), args...)
+		}
+		out[k] = v
+	}
+	for k, a := range args {
+		if sl, ok := a.([]value); ok {
+			var ns []value
+			for j, e := range sl {
+				if ne, ch := fmtPlaceholder(e); ch {
+					if ns == nil {
+						ns = append([]value(nil), sl...)
+					}
+					ns[j] = ne
+				}
+			}
+			if ns != nil {
+				set(k, ns)
+			}
+			continue
+		}
+		if nv, ch := fmtPlaceholder(a); ch {
+			set(k, nv)
+		}
+	}
+	if out == nil {
+		return args
+	}
+	return out
+}
